@@ -43,7 +43,14 @@ def plan(ex, tier, first):
            T.p_record_single_write, "record_single_write", "strace")
     ack = ("an operation returns Ok only after its WAL record was written and fdatasync'ed",
            T.p_ack_after_wal_sync, "ack_after_wal_sync", "strace")
-    p = [("put.finish", [stage, wal, snap, one, ack]), ("remove", [wal, snap, one, ack]), ("checkpoint", [snap, one])]
+    rec = ("a successful operation appends exactly one record: next unused version, right segment, encoding the applied operation",
+           T.make_p_record_content(ex), "record_content", "probe:replay_api_wrappers")
+    snc = ("a written snapshot holds the in-memory map and is labelled with the highest written version",
+           T.make_p_snapshot_content(ex), "snapshot_content", "probe:replay_api_wrappers")
+    import tprop
+    if ("src/lib.rs", "replay_api.rs", "verif_replay_api") not in tprop.SCEN_INJ:
+        tprop.SCEN_INJ.append(("src/lib.rs", "replay_api.rs", "verif_replay_api"))
+    p = [("put.finish", [stage, wal, snap, one, ack, rec, snc]), ("remove", [wal, snap, one, ack, rec, snc]), ("checkpoint", [snap, one, snc])]
     if tier == "thorough" and first:
         p.append(("remove_range", [wal, snap, one, ack]))
     return p
